@@ -150,17 +150,20 @@ inductive Act where
   | claimExec (i : TxId)
   | execRead (i : TxId)
   | execFinish (i : TxId)
-  | publishOne (i : TxId)
-  | removeOne (i : TxId)
+  /-- publish location `l` of the write set (HashMap order is arbitrary) -/
+  | publishOne (i : TxId) (l : Loc)
+  | endPublish (i : TxId)
+  | removeOne (i : TxId) (l : Loc)
   /-- store the result and decide the tail; `handoff` = `tx_dependency.remove` returned a successor -/
   | recordResult (i : TxId) (handoff : Bool)
-  | markOne (i : TxId)
+  | markOne (i : TxId) (l : Loc)
   | endErrMark (i : TxId)
   | tailTs (i : TxId)
   | tailLts (i : TxId)
   | claimVal (i : TxId)
   | valTs (i : TxId)
-  | valCheck (i : TxId)
+  /-- check read-set entry number `k` of the unchecked ones (HashMap order is arbitrary) -/
+  | valCheck (i : TxId) (k : Nat)
   | endScan (i : TxId)
   | endValMark (i : TxId)
   | finalize
@@ -198,23 +201,31 @@ def step (P : Params) (s : State) : Act → Option State
       | .reading (.fail e) _ _ =>
           some (setPhase s i (.errMark e (oldWrites s i) (oldLocs s i)))
       | _ => none
-  | .publishOne i =>
+  | .publishOne i l =>
       match s.phase i with
-      | .publishing run (l :: todo) newLoc =>
-          match lookup run.writes l with
-          | some v =>
-              some { s with mv := setMv s.mv l i (some { inc := s.inc i, val := v, est := run.blocked }),
-                            phase := updF s.phase i
-                              (.publishing run todo (newLoc || !decide (l ∈ oldLocs s i))) }
-          | none => none
+      | .publishing run todo newLoc =>
+          if l ∈ todo then
+            match lookup run.writes l with
+            | some v =>
+                some { s with mv := setMv s.mv l i (some { inc := s.inc i, val := v, est := run.blocked }),
+                              phase := updF s.phase i
+                                (.publishing run (todo.erase l) (newLoc || !decide (l ∈ oldLocs s i))) }
+            | none => none
+          else none
+      | _ => none
+  | .endPublish i =>
+      match s.phase i with
       | .publishing run [] newLoc =>
           some (setPhase s i (.removing run
             ((oldLocs s i).filter (fun l => !decide (l ∈ writeLocs run.writes))) newLoc))
       | _ => none
-  | .removeOne i =>
+  | .removeOne i l =>
       match s.phase i with
-      | .removing run (l :: todo) newLoc =>
-          some { s with mv := setMv s.mv l i none, phase := updF s.phase i (.removing run todo newLoc) }
+      | .removing run todo newLoc =>
+          if l ∈ todo then
+            some { s with mv := setMv s.mv l i none,
+                          phase := updF s.phase i (.removing run (todo.erase l) newLoc) }
+          else none
       | _ => none
   | .recordResult i handoff =>
       match s.phase i with
@@ -227,18 +238,22 @@ def step (P : Params) (s : State) : Act → Option State
           else some { s1 with status := updF s1.status i .validating,
                               phase := updF s1.phase i .valPreTs }
       | _ => none
-  | .markOne i =>
+  | .markOne i l =>
       match s.phase i with
-      | .errMark e ow (l :: todo) =>
-          match s.mv l i with
-          | some en => some { s with mv := setMv s.mv l i (some { en with est := true }),
-                                     phase := updF s.phase i (.errMark e ow todo) }
-          | none => some (setPhase s i (.errMark e ow todo))
-      | .valMark (l :: todo) =>
-          match s.mv l i with
-          | some en => some { s with mv := setMv s.mv l i (some { en with est := true }),
-                                     phase := updF s.phase i (.valMark todo) }
-          | none => some (setPhase s i (.valMark todo))
+      | .errMark e ow todo =>
+          if l ∈ todo then
+            match s.mv l i with
+            | some en => some { s with mv := setMv s.mv l i (some { en with est := true }),
+                                       phase := updF s.phase i (.errMark e ow (todo.erase l)) }
+            | none => some (setPhase s i (.errMark e ow (todo.erase l)))
+          else none
+      | .valMark todo =>
+          if l ∈ todo then
+            match s.mv l i with
+            | some en => some { s with mv := setMv s.mv l i (some { en with est := true }),
+                                       phase := updF s.phase i (.valMark (todo.erase l)) }
+            | none => some (setPhase s i (.valMark (todo.erase l)))
+          else none
       | _ => none
   | .endErrMark i =>
       match s.phase i with
@@ -268,10 +283,14 @@ def step (P : Params) (s : State) : Act → Option State
       | .valPreTs, some r =>
           some { s with clock := s.clock + 1, phase := updF s.phase i (.valScan s.clock [] r.reads false) }
       | _, _ => none
-  | .valCheck i =>
+  | .valCheck i k =>
       match s.phase i with
-      | .valScan ts done (r :: todo) conflict =>
-          some (setPhase s i (.valScan ts (r :: done) todo (conflict || !readOk s.mv i r)))
+      | .valScan ts done todo conflict =>
+          match todo[k]? with
+          | some r =>
+              some (setPhase s i (.valScan ts (r :: done) (todo.eraseIdx k)
+                (conflict || !readOk s.mv i r)))
+          | none => none
       | _ => none
   | .endScan i =>
       match s.phase i with
